@@ -1905,16 +1905,16 @@ pub fn case(kinds: &'static str, idx: u64, rng: &mut Rng, ctx: &Ctx) -> CaseOut 
     out
 }
 
-fn case_udp(i: u64, r: &mut Rng, c: &Ctx) -> CaseOut {
+pub fn case_udp(i: u64, r: &mut Rng, c: &Ctx) -> CaseOut {
     case("udp", i, r, c)
 }
-fn case_icmp(i: u64, r: &mut Rng, c: &Ctx) -> CaseOut {
+pub fn case_icmp(i: u64, r: &mut Rng, c: &Ctx) -> CaseOut {
     case("icmp", i, r, c)
 }
-fn case_raw(i: u64, r: &mut Rng, c: &Ctx) -> CaseOut {
+pub fn case_raw(i: u64, r: &mut Rng, c: &Ctx) -> CaseOut {
     case("raw", i, r, c)
 }
-fn case_mixed(i: u64, r: &mut Rng, c: &Ctx) -> CaseOut {
+pub fn case_mixed(i: u64, r: &mut Rng, c: &Ctx) -> CaseOut {
     case("mixed", i, r, c)
 }
 
